@@ -489,6 +489,10 @@ def xstepCore (tc : TCfg) (top : Top) : XOp → Out (Top × String) :=
     match op with
     | .newTerm lines cols mock => newTop cfg lines cols mock false
     | .mdisp len line col width =>
+      -- the harness asks for cells of the screen as it is now only
+      if top.mock && heldT top.st && (line < 0 || line ≥ top.size.1 || col < 0 || width < 0 || col + width > top.size.2) then
+        pure (top, "skip")
+      else
       match top.screen with
       | some scr =>
         if top.printed then
